@@ -9,6 +9,9 @@ KEYS_SMALL = [bytes([0x61 + i, 0]) for i in range(26)]
 def key_universe(rng, n, kind):
     if kind == 'str':
         return [('k%03d' % i).encode() + b'\0' for i in range(n)]
+    if kind == 'case':     # keys that differ only in case: equal under the case-insensitive ordering
+        base = [bytes([0x61 + i]) + b'\0' for i in range(max(2, n // 2))]
+        return (base + [k.upper() for k in base])[:max(n, 4)]
     if kind == 'bin':      # binary keys of differing lengths, embedded NULs, prefixes of each other
         base = [b'\0', b'\0\0', b'a', b'a\0', b'a\0b', b'ab', b'\xff', b'\xff\0', b'\x80', b'\x7f\xff', b'b', b'ba', b'\0\xff']
         out = list(base)
@@ -66,6 +69,9 @@ def canon_near(obs):
 def monitor(ctx, opline, impl, spec, focus):
     """Property monitor: implementation observation vs specification observation. Returns a signature dict or None."""
     kind = opline.split()[0]
+    for w in ('CRASH', 'TIMEOUT'):          # a call that died after printing part of its line
+        if impl.endswith(w):
+            impl = w
     if impl in ('CRASH', 'TIMEOUT', 'DEAD', 'MISSING'):
         if impl in ('DEAD', 'MISSING'):
             return None
@@ -162,7 +168,11 @@ def run_histories(ctx, exe, histories, label, focus):
         sig = monitor(ctx, ops[oi], a, s, focus)
         if sig is not None:
             failed_hist.add(hi)
-            small = shrink(ctx, exe, hdr, ops[:oi + 1], sig, focus)
+            key = json.dumps(sig, sort_keys=True)
+            if key in getattr(ctx, 'sig_counts', {}) or ctx.match_known(sig):
+                small = ops[:oi + 1]          # already reported once (or a listed finding): no need to shrink again
+            else:
+                small = shrink(ctx, exe, hdr, ops[:oi + 1], sig, focus)
             ctx.report('impl-vs-spec', sig, 'tree table: %s %s' % (sig['op'], sig['observed']),
                        {'ops': hdr + small, 'failing_op': small[-1] if small else ops[oi], 'impl': a[:600], 'spec': s[:600], 'model': m[:600]})
             continue
@@ -196,7 +206,7 @@ def shrink(ctx, exe, hdr, ops, sig, focus):
     if len(cur) > 400:
         return cur
     n = 2
-    budget = 120
+    budget = 40 if sig.get('observed') in ('timeout', 'crash') else 120
     while len(cur) >= 2 and budget > 0:
         chunk = max(1, len(cur) // n)
         removed = False
@@ -290,10 +300,10 @@ def tree_check(ctx, props, focus, replay=None):
     nh = 150 if quick else 1000
     for i in range(nh):
         mixname = emphasis if i % 3 else rng.choice(list(mixes))
-        kind = rng.choice(['small', 'small', 'str', 'bin'])
+        kind = rng.choice(['small', 'small', 'str', 'bin', 'case'])
         nk = rng.choice([3, 6, 10, 16, 26]) if kind == 'small' else rng.choice([6, 20, 40])
         keys = key_universe(rng, nk, kind)
-        cmpn = rng.choice(['byte', 'byte', 'rev', 'len'])
+        cmpn = rng.choice(['byte', 'byte', 'rev', 'len', 'ci']) if kind != 'case' else 'ci'
         hists.append((['cmp ' + cmpn, 'dump 1'], gen_history(rng, 150 if quick else 300, keys, mixes[mixname])))
     # histories with more than 256 traversal starts (8-bit epoch) and root changes in between
     for i in range(2 if quick else 12):
@@ -331,6 +341,16 @@ def tree_check(ctx, props, focus, replay=None):
         ops += ['walk %d' % rng.choice([1, 2, 3])]
         ops += ['walk 8'] * 127 + ['walk 8', 'walk 8']
         hists.append((['cmp byte', 'dump 1'], ops))
+    # marks of an abandoned walk must not survive the epoch wrap: abandon a walk after k nodes, drive the sequencer once
+    # around with 255 one-step walks (they re-mark only the first node), then walk completely with the same epoch value
+    for i in range(3 if quick else 10):
+        keys = key_universe(rng, rng.choice([6, 8, 12]), 'small')
+        ops = ['put %s 01' % hexs(k) for k in keys]
+        ops += ['walk %d' % rng.choice([2, 3, 5])]
+        if rng.random() < 0.5:
+            ops += ['put %s 02' % hexs(bytes([0x41 + j, 0])) for j in range(rng.choice([1, 3]))]
+        ops += ['walk 1'] * 255 + ['walk %d' % (len(keys) + 6)]
+        hists.append((['cmp byte', 'dump 1', 'settid %d' % rng.choice([200, 250, 254])], ops))
     # large histories, structure summarised
     for i in range(1 if quick else 6):
         nk = 600 if quick else rng.choice([1000, 3000, 5000])
@@ -347,7 +367,7 @@ def tree_check(ctx, props, focus, replay=None):
     ctx.cov['exhaustive_note'] = 'all %d tree shapes reachable over %d keys, every put/remove from each (lockstep with the model); random histories beyond' % (nstates, K)
     ctx.cov['correspondence_mismatches'] = nb
     ctx.cov['traces_validated_against_impl'] = len(hists) + len(bh)
-    ctx.assumptions += ['comparators used: qtreetbl_byte_cmp, its reverse, length-then-bytes; all are strict total orders',
+    ctx.assumptions += ['comparators used: qtreetbl_byte_cmp, its reverse, length-then-bytes, case-insensitive (byte-different keys compare equal); all satisfy the three comparator laws of the theorems',
                         'caller buffers are exact-size heap blocks scribbled and freed after each call; getnext/find_nearest use newmem=true']
     ctx.finish('random operation histories (mix emphasised on %s) over small/str/binary key universes and 3 comparators, histories with >256 traversal starts, '
                'large histories, and every put/remove from every tree shape over %d keys; every op: impl vs extracted spec (monitor) and impl vs extracted model incl. full coloured shape; '
